@@ -4,37 +4,53 @@
 
    SPEC (section 1, meant to be checked by reading): an abstract view `aview` (node id -> "host:port",
    topic -> per partition id the leader NODE ID), `merge` (what one metadata response does to the view),
-   `abs` (the view a concrete index-based state stands for), `inv`, `wf_md`, `route`.
+   `abs` (the view a concrete index-based state stands for), `inv`, `wf_md`, `route`, `leader_of`.
+   C06_merge_host_lookup / C06_merge_topic_lookup read `merge` pointwise: a node id maps to the host:port of
+   the LAST broker entry of the response with that id, else to what it mapped to before; a topic maps to the
+   vector built from the LAST topic entry of the response with that name, else to its old vector.
+   Equalities are plain `=` on the association lists (the order of first insertion is part of both sides).
 
-   PROVED (all Qed, no axioms; Print Assumptions at the end):
+   PROVED (all Qed, no axioms; Print Assumptions at the end; an Example follows every main theorem):
    - C06_update_total, C06_inv_init, C06_inv_step (any md), C06_inv_clear, C06_clear   as requested.
    - C06_refines_code : for ANY md (also ill-formed), abs s' = merge_code (abs s) md, where merge_code is the
      faithful reading (a known topic's vector is resized and only the listed in-range ids are overwritten);
-     merge_code_wf : merge_code = merge on well-formed responses;  C06_refines : the requested statement.
-   - C06_history, C06_routing, C06_stable_indices (+ C06_stable_refs on the raw indices),
+     merge_code_wf : merge_code = merge on well-formed responses;  C06_refines : the requested statement;
+     C06_refines_refuted_without_wf : it is false without wf_md.
+   - C06_history, C06_routing (= C06_routing' with `route`), C06_stable_indices (+ C06_stable_refs on the raw
+     indices, C06_stable_nodes on the broker vector),
      C06_leaderless_never_addressed (offsets), C06_fetch_addressed, C06_produce_addressed,
-     C06_produce_unavailable, C06_addressed_has_leader.
-   - C06_bootstrap_none, C06_bootstrap_first (+ C06_response_reads_only: get_response touches only host h).
+     C06_addressed_has_leader, C06_no_leader_no_address,
+     C06_produce_unavailable / C06_produce_reports_unavailable, C06_fetch_skips.
+   - C06_bootstrap_none, C06_bootstrap_first, C06_response_reads_only + C06_bootstrap_first_trace (after the
+     write only reads from host k+1 follow: no further host is contacted), C06_bootstrap_encode_error.
+     The bootstrap theorems assume "no pooled connection for the hosts tried" (weaker than "pool empty").
+   NOT COVERED: that the monadic exchanges (offsets_exchange, fetch_exchange, produce_exchange) write each
+   entry of the request map to its host key; the theorems stop at the request maps.
 
    ONE HYPOTHESIS FORCED BY THE MODEL, visible in the statements as `small s'`:
      ulen (brokers s') <= UNKNOWN_BROKER_INDEX (= 2^32-1).
    "No leader" is stored as the index 4294967295 and find_broker does `brokers.get(index)` without
    testing for the sentinel, so with 2^32 brokers in the vector the sentinel would be a valid index.
-   Unreachable in practice (memory), but neither inv_step nor routing need it; only the statements that
-   say "an unknown leader is None in the view" do (refines / history / stable_indices).
-   `small_step` gives the input-only sufficient condition  |brokers s| + |md_brokers md| <= 2^32-1.
+   Unreachable in practice (memory). C06_inv_step, C06_routing and the addressing theorems do not need it;
+   only the statements that say "an unknown leader is None in the view" do (refines / history /
+   stable_indices). `small_step` gives the input-only sufficient condition
+   |brokers s| + |md_brokers md| <= 2^32-1; C06_history asks for it summed over the history.
 
-   BEHAVIOUR THAT DOES NOT MATCH THE INFORMAL PROPERTY (concrete inputs in section 9):
-   - ill-formed partition ids: ex_illformed_keeps_stale_leader, ex_illformed_out_of_range_dropped.
+   BEHAVIOUR THAT DOES NOT MATCH THE INFORMAL PROPERTY (concrete inputs: the Examples named below):
+   - ill-formed partition ids: ex_illformed_keeps_stale_leader (ids {0,5} listed for a known topic:
+     partition 1 keeps its OLD leader although the response does not mention it, id 5 is dropped),
+     ex_illformed_out_of_range_dropped (one partition listed with id 1: the topic gets a leaderless
+     partition 0 and the listed partition 1 is dropped).
    - a leader that is not among the brokers known after the broker merge is recorded as "no leader", and it
      stays so even when a later response advertises that broker but does not list the topic:
      ex_leader_before_broker.
-   - brokers are never forgotten except by reset: ex_broker_disappears.
-   - fetch and offset requests silently skip partitions without leader (C06_fetch_skips); only produce reports
-     UnknownTopicOrPartition (C06_produce_unavailable).
+   - brokers are never forgotten except by reset: ex_broker_disappears (requests keep going to the last
+     advertised address of a broker that later responses no longer list).
+   - fetch and offset requests silently skip partitions without leader (C06_fetch_skips, ex_offset_reqs); only
+     produce reports UnknownTopicOrPartition, for the whole batch (C06_produce_reports_unavailable).
    - bootstrap: a request that fails to ENCODE (e.g. client id longer than i16::MAX) is treated like an
      unreachable host: every host is connected to, nothing is written, the result is NoHostReachable
-     (ex_bootstrap_encode_error). *)
+     (C06_bootstrap_encode_error, ex_bootstrap_encode_error). *)
 From Coq Require Import ZifyBool Sorting.Permutation.
 From KV Require Import Base.Prelude Gen.Consts Model.Codecs Model.Requests Model.Responses
                        Model.ClientState Model.Net Model.Client.
@@ -162,6 +178,54 @@ Definition wf_op (op : option metadata_resp) : Prop := match op with None => Tru
 Definition listed_brokers (ops : list (option metadata_resp)) : Z :=
   fold_right (fun op n => match op with None => n | Some md => ulen (md_brokers md) + n end) 0 ops.
 
+(* ---- concrete inputs used by the non-vacuity examples ------------------------------------------- *)
+Definition ex_pm (id leader : Z) : partition_md :=
+  {| pm_error := 0; pm_id := id; pm_leader := leader; pm_replicas := [leader]; pm_isr := [leader] |}.
+Definition ex_bm (node : Z) (host : bytes) (port : Z) : broker_md :=
+  {| bm_node := node; bm_host := host; bm_port := port |}.
+Definition ex_tm (t : bytes) (pms : list partition_md) : topic_md :=
+  {| tm_error := 0; tm_topic := t; tm_partitions := pms |}.
+(* load 1: brokers 1 and 2; topic a with partitions 1 (leader 2) and 0 (leader 1), listed out of order *)
+Definition ex_md1 : metadata_resp :=
+  {| md_corr := 1; md_brokers := [ex_bm 1 (tag "h1") 9092; ex_bm 2 (tag "h2") 9092];
+     md_topics := [ex_tm (tag "a") [ex_pm 1 2; ex_pm 0 1]] |}.
+(* load 2 (partial): broker 2 moved to port 9093; topic b *)
+Definition ex_md2 : metadata_resp :=
+  {| md_corr := 2; md_brokers := [ex_bm 2 (tag "h2") 9093]; md_topics := [ex_tm (tag "b") [ex_pm 0 2]] |}.
+(* load 3: broker 2 is no longer advertised, but still leads a/1 *)
+Definition ex_md3 : metadata_resp :=
+  {| md_corr := 3; md_brokers := [ex_bm 1 (tag "h1") 9092];
+     md_topics := [ex_tm (tag "a") [ex_pm 0 1; ex_pm 1 2]] |}.
+(* ill-formed: two partitions listed for a, with ids 0 and 5 *)
+Definition ex_md_ill : metadata_resp :=
+  {| md_corr := 4; md_brokers := []; md_topics := [ex_tm (tag "a") [ex_pm 0 2; ex_pm 5 1]] |}.
+(* topic c: partition 0 led by node 7, which is not among the advertised brokers; partition 1 led by 1 *)
+Definition ex_md5 : metadata_resp :=
+  {| md_corr := 5; md_brokers := [ex_bm 1 (tag "h1") 9092];
+     md_topics := [ex_tm (tag "c") [ex_pm 0 7; ex_pm 1 1]] |}.
+(* node 7 is advertised later, by a response that does not list topic c *)
+Definition ex_md6 : metadata_resp :=
+  {| md_corr := 6; md_brokers := [ex_bm 7 (tag "h7") 9092]; md_topics := [] |}.
+(* ill-formed: ONE partition listed for d, with id 1 *)
+Definition ex_md7 : metadata_resp :=
+  {| md_corr := 7; md_brokers := [ex_bm 1 (tag "h1") 9092]; md_topics := [ex_tm (tag "d") [ex_pm 1 1]] |}.
+
+Definition ex_load (s : cstate) (md : metadata_resp) : cstate :=
+  match update_metadata s md with Ok s' => s' | _ => s end.
+Definition ex_s1 : cstate := ex_load cstate_new ex_md1.
+Definition ex_s2 : cstate := ex_load ex_s1 ex_md2.
+Definition ex_s3 : cstate := ex_load ex_s2 ex_md3.
+Definition ex_s5 : cstate := ex_load cstate_new ex_md5.
+Definition ex_s6 : cstate := ex_load ex_s5 ex_md6.
+Definition ex_ops : list (option metadata_resp) := [Some ex_md1; Some ex_md2; None; Some ex_md2].
+
+Definition ex_env : codecs :=
+  {| gz_compress := fun b => b; sn_compress := fun b => b; gz_decompress := fun b => Some b; debug_build := false |}.
+Definition ex_st (hs : list bytes) (sc : list ev_out) : st :=
+  {| script := sc; trace := []; anyq := []; hostq := []; fetchq := []; entryq := []; cl := client_new hs;
+     env := ex_env |}.
+Definition ex_hs : list bytes := [tag "a:1"; tag "b:2"; tag "c:3"].
+
 (* ================================================================================================ *)
 (* 2. Generic list facts                                                                            *)
 (* ================================================================================================ *)
@@ -170,6 +234,9 @@ Ltac beq := repeat match goal with
   | H : bytes_eqb _ _ = true |- _ => apply bytes_eqb_eq in H
   | H : bytes_eqb _ _ = false |- _ => apply bytes_eqb_neq in H
   end.
+
+Lemma ulen_map {A B} (f : A -> B) l : ulen (map f l) = ulen l.
+Proof. unfold ulen. rewrite map_length. reflexivity. Qed.
 
 Lemma nth_z_map {A B} (f : A -> B) l i : nth_z (map f l) i = option_map f (nth_z l i).
 Proof.
@@ -515,6 +582,93 @@ Qed.
 
 Theorem C06_update_total : forall s md, exists s', update_metadata s md = Ok s'.
 Proof. intros s md. exists (upd_fun s md). apply update_metadata_eq. Qed.
+Example ex_update_total :
+  is_ok (update_metadata cstate_new ex_md1) = true /\ is_ok (update_metadata ex_s1 ex_md_ill) = true.
+Proof. vm_compute. auto. Qed.
+
+(* ================================================================================================ *)
+(* 4b. The representation invariant                                                                 *)
+(* ================================================================================================ *)
+
+Theorem C06_inv_init : inv cstate_new.
+Proof. unfold inv, cstate_new. cbn [brokers topic_partitions map]. repeat split; constructor. Qed.
+Example ex_inv_init : brokers cstate_new = [] /\ topic_partitions cstate_new = [].
+Proof. vm_compute. auto. Qed.
+
+Theorem C06_inv_clear : forall s, inv (clear_metadata s).
+Proof. intros s. unfold inv, clear_metadata. cbn [brokers topic_partitions map]. repeat split; constructor. Qed.
+Example ex_inv_clear : inv (clear_metadata ex_s2) /\ brokers ex_s2 <> [].
+Proof. split; [apply C06_inv_clear | vm_compute; discriminate]. Qed.
+
+Theorem C06_clear : forall s, abs (clear_metadata s) = {| a_host := []; a_topics := [] |}.
+Proof. reflexivity. Qed.
+Example ex_clear : abs (clear_metadata ex_s2) = empty_view /\ abs ex_s2 <> empty_view.
+Proof. split; [vm_compute; reflexivity | vm_compute; discriminate]. Qed.
+
+Lemma sync_fun_ok bs idx : idx_ok (map b_node bs) idx ->
+  forall pms ps, Forall (ref_ok bs) ps -> Forall (ref_ok bs) (sync_fun idx pms ps).
+Proof.
+  intros Hidx. induction pms as [|pm pms IH]; intros ps Hps; cbn [sync_fun]; [exact Hps|].
+  destruct ((pm_id pm <? 0) || (ulen ps <=? pm_id pm)); [auto|]. apply IH. apply Forall_set_nth; [| exact Hps].
+  specialize (Hidx (pm_leader pm)). destruct (assoc_z (pm_leader pm) idx) as [i|]; [| left; reflexivity].
+  destruct Hidx as [H0 H1]. right. split; [exact H0|].
+  assert (Hlt : (Z.to_nat i < length (map b_node bs))%nat) by (apply nth_error_Some; congruence).
+  rewrite map_length in Hlt. unfold ulen. lia.
+Qed.
+
+Lemma topics_fun_ok bs idx : idx_ok (map b_node bs) idx ->
+  forall tms tps, Forall (fun tp => Forall (ref_ok bs) (snd tp)) tps ->
+                  Forall (fun tp => Forall (ref_ok bs) (snd tp)) (topics_fun idx tms tps).
+Proof.
+  intros Hidx. induction tms as [|tm tms IH]; intros tps Htps; cbn [topics_fun]; [exact Htps|].
+  apply IH. apply Forall_bset; [| exact Htps]. intros k'. cbn [snd]. unfold topic_vec.
+  apply sync_fun_ok; [exact Hidx|]. apply Forall_resize; [left; reflexivity|].
+  destruct (assoc_bytes (tm_topic tm) tps) as [ps|] eqn:E; [| constructor].
+  apply assoc_bytes_in in E. rewrite Forall_forall in Htps. exact (Htps _ E).
+Qed.
+
+Lemma topics_fun_nodup idx : forall tms tps, NoDup (map fst tps) -> NoDup (map fst (topics_fun idx tms tps)).
+Proof. induction tms as [|tm tms IH]; intros tps H; cbn [topics_fun]; [exact H|]. apply IH, NoDup_bset, H. Qed.
+
+Theorem C06_inv_step : forall s md s', inv s -> update_metadata s md = Ok s' -> inv s'.
+Proof.
+  intros s md s' (Hnd & Hrefs & Htn) Hupd. rewrite update_metadata_eq in Hupd. injection Hupd as <-.
+  unfold inv, upd_fun. cbn [brokers topic_partitions].
+  destruct (update_brokers s md) as [bs' idx'] eqn:Hub. cbn [fst snd].
+  destruct (update_brokers_spec s md bs' idx' Hnd Hub) as (Hnd' & Hidx & [sfx Hsfx] & _ & _).
+  split; [exact Hnd'|]. split; [| apply topics_fun_nodup; exact Htn].
+  apply topics_fun_ok; [exact Hidx|].
+  assert (Hlen : ulen (brokers s) <= ulen bs').
+  { rewrite <- (ulen_map b_node bs'), Hsfx. unfold ulen. rewrite app_length, map_length. lia. }
+  eapply Forall_impl; [| exact Hrefs]. intros [t ps] Hps. cbn [snd] in *.
+  eapply Forall_impl; [| exact Hps]. intros i [Hi|Hi]; [left; exact Hi | right; lia].
+Qed.
+Example ex_inv_s1 : inv ex_s1.
+Proof. apply (C06_inv_step cstate_new ex_md1); [apply C06_inv_init | vm_compute; reflexivity]. Qed.
+Example ex_inv_s2 : inv ex_s2.
+Proof. apply (C06_inv_step ex_s1 ex_md2); [apply ex_inv_s1 | vm_compute; reflexivity]. Qed.
+Example ex_inv_ill : inv (ex_load ex_s1 ex_md_ill).
+Proof. apply (C06_inv_step ex_s1 ex_md_ill); [apply ex_inv_s1 | vm_compute; reflexivity]. Qed.
+Example ex_inv_s5 : inv ex_s5.
+Proof. apply (C06_inv_step cstate_new ex_md5); [apply C06_inv_init | vm_compute; reflexivity]. Qed.
+
+(* input-only sufficient condition for the size hypothesis *)
+Lemma small_step : forall s md s',
+  inv s -> ulen (brokers s) + ulen (md_brokers md) <= UNKNOWN_BROKER_INDEX ->
+  update_metadata s md = Ok s' -> small s'.
+Proof.
+  intros s md s' (Hnd & _) Hsz Hupd. rewrite update_metadata_eq in Hupd. injection Hupd as <-.
+  unfold small, upd_fun. cbn [brokers]. destruct (update_brokers s md) as [bs' idx'] eqn:Hub. cbn [fst].
+  destruct (update_brokers_spec s md bs' idx' Hnd Hub) as (_ & _ & _ & _ & Hlen). unfold ulen in *. lia.
+Qed.
+
+Lemma brokers_bound : forall s md s',
+  inv s -> update_metadata s md = Ok s' -> ulen (brokers s') <= ulen (brokers s) + ulen (md_brokers md).
+Proof.
+  intros s md s' (Hnd & _) Hupd. rewrite update_metadata_eq in Hupd. injection Hupd as <-.
+  unfold upd_fun. cbn [brokers]. destruct (update_brokers s md) as [bs' idx'] eqn:Hub. cbn [fst].
+  destruct (update_brokers_spec s md bs' idx' Hnd Hub) as (_ & _ & _ & _ & Hlen). unfold ulen in *. lia.
+Qed.
 
 (* ================================================================================================ *)
 (* 5. Abstraction of the topic update                                                               *)
@@ -551,9 +705,6 @@ Proof.
   - rewrite ref_unknown by exact Hsm.
     destruct (known (map bpair bs) l) eqn:E; [apply known_iff in E; tauto | reflexivity].
 Qed.
-
-Lemma ulen_map {A B} (f : A -> B) l : ulen (map f l) = ulen l.
-Proof. unfold ulen. rewrite map_length. reflexivity. Qed.
 
 Lemma sync_abs bs idx :
   idx_ok (map b_node bs) idx -> ulen bs <= UNKNOWN_BROKER_INDEX ->
@@ -623,6 +774,13 @@ Proof.
   rewrite topics_abs by assumption. rewrite (abs_tps_ext (brokers s) bs') by assumption.
   rewrite Hhost. reflexivity.
 Qed.
+Example ex_refines_code_hyps :
+  inv ex_s1 /\ small (ex_load ex_s1 ex_md_ill) /\ update_metadata ex_s1 ex_md_ill = Ok (ex_load ex_s1 ex_md_ill).
+Proof. split; [apply ex_inv_s1|]. split; vm_compute; [discriminate | reflexivity]. Qed.
+Example ex_refines_code :
+  abs (ex_load ex_s1 ex_md_ill) = merge_code (abs ex_s1) ex_md_ill /\
+  a_topics (abs (ex_load ex_s1 ex_md_ill)) = [(tag "a", [Some 2; Some 2])].
+Proof. vm_compute. auto. Qed.
 
 (* ================================================================================================ *)
 (* 6. On well-formed responses both readings of merge coincide                                      *)
@@ -677,80 +835,130 @@ Proof.
   generalize (a_topics a). induction Hwf as [|tm tms Htm Htms IH]; intros ts; cbn [fold_left]; [reflexivity|].
   rewrite code_vec_wf by exact Htm. apply IH.
 Qed.
+Example ex_wf_md1 : wf_md ex_md1.
+Proof. constructor; [| constructor]. unfold wf_topic. vm_compute. apply perm_swap. Qed.
+Example ex_wf_md2 : wf_md ex_md2.
+Proof. constructor; [| constructor]. unfold wf_topic. vm_compute. apply Permutation_refl. Qed.
+Example ex_wf_md3 : wf_md ex_md3.
+Proof. constructor; [| constructor]. unfold wf_topic. vm_compute. apply Permutation_refl. Qed.
+Example ex_merge_code_wf : merge_code (abs ex_s1) ex_md2 = merge (abs ex_s1) ex_md2.
+Proof. vm_compute. reflexivity. Qed.
 
 Theorem C06_refines : forall s md s',
   inv s -> wf_md md -> small s' -> update_metadata s md = Ok s' -> abs s' = merge (abs s) md.
 Proof. intros s md s' Hinv Hwf Hsm Hupd. rewrite <- merge_code_wf by exact Hwf. apply C06_refines_code; auto. Qed.
+Example ex_refines_hyps : inv ex_s1 /\ wf_md ex_md2 /\ small ex_s2 /\ update_metadata ex_s1 ex_md2 = Ok ex_s2.
+Proof.
+  split; [apply ex_inv_s1|]. split; [apply ex_wf_md2|]. split; vm_compute; [discriminate | reflexivity].
+Qed.
+(* the history asked for: load {brokers 1,2; topic a: [1,2]}, then load {broker 2 moved; topic b} *)
+Example ex_refines :
+  abs ex_s2 = merge (abs ex_s1) ex_md2 /\
+  abs ex_s2 = {| a_host := [(1, tag "h1:9092"); (2, tag "h2:9093")];
+                 a_topics := [(tag "a", [Some 1; Some 2]); (tag "b", [Some 2])] |} /\
+  find_broker ex_s2 (tag "a") 0 = Some (tag "h1:9092") /\
+  find_broker ex_s2 (tag "a") 1 = Some (tag "h2:9093") /\      (* the moved broker: new address *)
+  find_broker ex_s2 (tag "b") 0 = Some (tag "h2:9093") /\
+  find_broker ex_s2 (tag "a") 2 = None /\ find_broker ex_s2 (tag "zz") 0 = None.
+Proof. vm_compute. repeat split; reflexivity. Qed.
+(* WITHOUT well-formedness the simple reading is false: after load 1, a response listing the ids 0 and 5
+   for topic a leaves partition 1 with its OLD leader 2 (the response does not mention partition 1 at all;
+   merge says None), and the entry with id 5 is dropped *)
+Theorem C06_refines_refuted_without_wf : exists s md s',
+  inv s /\ small s' /\ update_metadata s md = Ok s' /\ abs s' <> merge (abs s) md.
+Proof.
+  exists ex_s1, ex_md_ill, (ex_load ex_s1 ex_md_ill). split; [apply ex_inv_s1|].
+  split; [vm_compute; discriminate|]. split; [vm_compute; reflexivity|]. vm_compute. discriminate.
+Qed.
+Example ex_illformed_keeps_stale_leader :
+  a_topics (abs (ex_load ex_s1 ex_md_ill)) = [(tag "a", [Some 2; Some 2])] /\
+  a_topics (merge (abs ex_s1) ex_md_ill) = [(tag "a", [Some 2; None])] /\
+  find_broker (ex_load ex_s1 ex_md_ill) (tag "a") 1 = Some (tag "h2:9092") /\
+  find_broker (ex_load ex_s1 ex_md_ill) (tag "a") 5 = None.
+Proof. vm_compute. repeat split; reflexivity. Qed.
+(* one partition listed, with id 1: the topic gets ONE slot (id 0, no leader); the listed partition 1 and
+   its leader are dropped *)
+Example ex_illformed_out_of_range_dropped :
+  a_topics (abs (ex_load cstate_new ex_md7)) = [(tag "d", [None])] /\
+  find_broker (ex_load cstate_new ex_md7) (tag "d") 1 = None /\
+  contains_topic_partition (ex_load cstate_new ex_md7) (tag "d") 0 = true.
+Proof. vm_compute. repeat split; reflexivity. Qed.
+(* a broker id that disappears from a later response stays known, at its last advertised address: merge
+   never removes an entry of a_host; only reset does *)
+Example ex_broker_disappears :
+  abs ex_s3 = merge (abs ex_s2) ex_md3 /\
+  assoc_z 2 (a_host (abs ex_s3)) = Some (tag "h2:9093") /\
+  find_broker ex_s3 (tag "a") 1 = Some (tag "h2:9093").
+Proof. vm_compute. repeat split; reflexivity. Qed.
+(* a leader that is not a known broker when the topic is loaded is recorded as "no leader", and stays so
+   when the broker is advertised later by a response that does not list the topic *)
+Example ex_leader_before_broker :
+  leader_of (abs ex_s5) (tag "c") 0 = None /\
+  known (a_host (abs ex_s6)) 7 = true /\ leader_of (abs ex_s6) (tag "c") 0 = None /\
+  find_broker ex_s6 (tag "c") 0 = None /\ abs ex_s6 = merge (abs ex_s5) ex_md6.
+Proof. vm_compute. repeat split; reflexivity. Qed.
+
+(* ---- merge, read pointwise: "for each broker id its latest advertised host:port, for each topic the
+        latest response mentioning it" ---------------------------------------------------------------- *)
+Fixpoint last_broker (bms : list broker_md) (n : Z) : option broker_md :=
+  match bms with
+  | [] => None
+  | m :: r => match last_broker r n with
+              | Some x => Some x
+              | None => if bm_node m =? n then Some m else None
+              end
+  end.
+Fixpoint last_topic (tms : list topic_md) (t : bytes) : option topic_md :=
+  match tms with
+  | [] => None
+  | tm :: r => match last_topic r t with
+               | Some x => Some x
+               | None => if bytes_eqb (tm_topic tm) t then Some tm else None
+               end
+  end.
+
+Theorem C06_merge_host_lookup : forall a md n,
+  assoc_z n (a_host (merge a md))
+  = match last_broker (md_brokers md) n with
+    | Some m => Some (host_port (bm_host m) (bm_port m))
+    | None => assoc_z n (a_host a)
+    end.
+Proof.
+  intros a md n. unfold merge. cbn [a_host]. unfold merge_hosts. generalize (a_host a).
+  induction (md_brokers md) as [|m bms IH]; intros h; cbn [fold_left last_broker]; [reflexivity|].
+  rewrite IH. destruct (last_broker bms n); [reflexivity|]. rewrite assoc_z_zset.
+  destruct (bm_node m =? n); reflexivity.
+Qed.
+
+Theorem C06_merge_topic_lookup : forall a md t,
+  assoc_bytes t (a_topics (merge a md))
+  = match last_topic (md_topics md) t with
+    | Some tm => Some (leader_vec (a_host (merge a md)) (tm_partitions tm))
+    | None => assoc_bytes t (a_topics a)
+    end.
+Proof.
+  intros a md t. unfold merge. cbn [a_topics a_host]. generalize (merge_hosts (a_host a) (md_brokers md)) as h.
+  intros h. generalize (a_topics a).
+  induction (md_topics md) as [|tm tms IH]; intros ts; cbn [fold_left last_topic]; [reflexivity|].
+  rewrite IH. destruct (last_topic tms t); [reflexivity|]. rewrite assoc_bytes_bset.
+  destruct (bytes_eqb (tm_topic tm) t); reflexivity.
+Qed.
+Example ex_merge_lookup :
+  assoc_z 2 (a_host (merge (abs ex_s1) ex_md2)) = Some (tag "h2:9093") /\        (* re-advertised by load 2 *)
+  last_broker (md_brokers ex_md2) 1 = None /\
+  assoc_z 1 (a_host (merge (abs ex_s1) ex_md2)) = Some (tag "h1:9092") /\        (* kept from load 1 *)
+  assoc_bytes (tag "b") (a_topics (merge (abs ex_s1) ex_md2)) = Some [Some 2] /\
+  last_topic (md_topics ex_md2) (tag "a") = None /\
+  assoc_bytes (tag "a") (a_topics (merge (abs ex_s1) ex_md2)) = Some [Some 1; Some 2].
+Proof. vm_compute. repeat split; reflexivity. Qed.
+
+(* "at most one entry per id" *)
+Lemma abs_host_nodup s : inv s -> NoDup (map fst (a_host (abs s))).
+Proof. intros (Hnd & _). unfold abs. cbn [a_host]. rewrite map_fst_bpair. exact Hnd. Qed.
 
 (* ================================================================================================ *)
-(* 7. Invariant, reset, histories, routing, stable indices                                          *)
+(* 7. Histories, routing, stable indices                                                             *)
 (* ================================================================================================ *)
-
-Theorem C06_inv_init : inv cstate_new.
-Proof. unfold inv, cstate_new. cbn [brokers topic_partitions map]. repeat split; constructor. Qed.
-
-Theorem C06_inv_clear : forall s, inv (clear_metadata s).
-Proof. intros s. unfold inv, clear_metadata. cbn [brokers topic_partitions map]. repeat split; constructor. Qed.
-
-Theorem C06_clear : forall s, abs (clear_metadata s) = {| a_host := []; a_topics := [] |}.
-Proof. reflexivity. Qed.
-
-Lemma sync_fun_ok bs idx : idx_ok (map b_node bs) idx ->
-  forall pms ps, Forall (ref_ok bs) ps -> Forall (ref_ok bs) (sync_fun idx pms ps).
-Proof.
-  intros Hidx. induction pms as [|pm pms IH]; intros ps Hps; cbn [sync_fun]; [exact Hps|].
-  destruct ((pm_id pm <? 0) || (ulen ps <=? pm_id pm)); [auto|]. apply IH. apply Forall_set_nth; [| exact Hps].
-  specialize (Hidx (pm_leader pm)). destruct (assoc_z (pm_leader pm) idx) as [i|]; [| left; reflexivity].
-  destruct Hidx as [H0 H1]. right. split; [exact H0|].
-  assert (Hlt : (Z.to_nat i < length (map b_node bs))%nat) by (apply nth_error_Some; congruence).
-  rewrite map_length in Hlt. unfold ulen. lia.
-Qed.
-
-Lemma topics_fun_ok bs idx : idx_ok (map b_node bs) idx ->
-  forall tms tps, Forall (fun tp => Forall (ref_ok bs) (snd tp)) tps ->
-                  Forall (fun tp => Forall (ref_ok bs) (snd tp)) (topics_fun idx tms tps).
-Proof.
-  intros Hidx. induction tms as [|tm tms IH]; intros tps Htps; cbn [topics_fun]; [exact Htps|].
-  apply IH. apply Forall_bset; [| exact Htps]. intros k'. cbn [snd]. unfold topic_vec.
-  apply sync_fun_ok; [exact Hidx|]. apply Forall_resize; [left; reflexivity|].
-  destruct (assoc_bytes (tm_topic tm) tps) as [ps|] eqn:E; [| constructor].
-  apply assoc_bytes_in in E. rewrite Forall_forall in Htps. exact (Htps _ E).
-Qed.
-
-Lemma topics_fun_nodup idx : forall tms tps, NoDup (map fst tps) -> NoDup (map fst (topics_fun idx tms tps)).
-Proof. induction tms as [|tm tms IH]; intros tps H; cbn [topics_fun]; [exact H|]. apply IH, NoDup_bset, H. Qed.
-
-Theorem C06_inv_step : forall s md s', inv s -> update_metadata s md = Ok s' -> inv s'.
-Proof.
-  intros s md s' (Hnd & Hrefs & Htn) Hupd. rewrite update_metadata_eq in Hupd. injection Hupd as <-.
-  unfold inv, upd_fun. cbn [brokers topic_partitions].
-  destruct (update_brokers s md) as [bs' idx'] eqn:Hub. cbn [fst snd].
-  destruct (update_brokers_spec s md bs' idx' Hnd Hub) as (Hnd' & Hidx & [sfx Hsfx] & _ & _).
-  split; [exact Hnd'|]. split; [| apply topics_fun_nodup; exact Htn].
-  apply topics_fun_ok; [exact Hidx|].
-  assert (Hlen : ulen (brokers s) <= ulen bs').
-  { rewrite <- (ulen_map b_node bs'), Hsfx. unfold ulen. rewrite app_length, map_length. lia. }
-  eapply Forall_impl; [| exact Hrefs]. intros [t ps] Hps. cbn [snd] in *.
-  eapply Forall_impl; [| exact Hps]. intros i [Hi|Hi]; [left; exact Hi | right; lia].
-Qed.
-
-(* input-only sufficient condition for the size hypothesis *)
-Lemma small_step : forall s md s',
-  inv s -> ulen (brokers s) + ulen (md_brokers md) <= UNKNOWN_BROKER_INDEX ->
-  update_metadata s md = Ok s' -> small s'.
-Proof.
-  intros s md s' (Hnd & _) Hsz Hupd. rewrite update_metadata_eq in Hupd. injection Hupd as <-.
-  unfold small, upd_fun. cbn [brokers]. destruct (update_brokers s md) as [bs' idx'] eqn:Hub. cbn [fst].
-  destruct (update_brokers_spec s md bs' idx' Hnd Hub) as (_ & _ & _ & _ & Hlen). unfold ulen in *. lia.
-Qed.
-
-Lemma brokers_bound : forall s md s',
-  inv s -> update_metadata s md = Ok s' -> ulen (brokers s') <= ulen (brokers s) + ulen (md_brokers md).
-Proof.
-  intros s md s' (Hnd & _) Hupd. rewrite update_metadata_eq in Hupd. injection Hupd as <-.
-  unfold upd_fun. cbn [brokers]. destruct (update_brokers s md) as [bs' idx'] eqn:Hub. cbn [fst].
-  destruct (update_brokers_spec s md bs' idx' Hnd Hub) as (_ & _ & _ & _ & Hlen). unfold ulen in *. lia.
-Qed.
 
 Lemma listed_brokers_nonneg ops : 0 <= listed_brokers ops.
 Proof.
@@ -785,6 +993,21 @@ Proof.
   intros ops Hwf Hsz. change empty_view with (abs cstate_new).
   apply history_from; auto using C06_inv_init.
 Qed.
+Example ex_history_hyps : Forall wf_op ex_ops /\ listed_brokers ex_ops <= UNKNOWN_BROKER_INDEX.
+Proof.
+  split; [| vm_compute; discriminate].
+  unfold ex_ops. constructor; [exact ex_wf_md1|]. constructor; [exact ex_wf_md2|].
+  constructor; [exact I|]. constructor; [exact ex_wf_md2 | constructor].
+Qed.
+Example ex_history :
+  match fold_left step_c ex_ops (Ok cstate_new) with
+  | Ok s => abs s = fold_left step_a ex_ops empty_view /\
+            abs s = {| a_host := [(2, tag "h2:9093")]; a_topics := [(tag "b", [Some 2])] |} /\
+            find_broker s (tag "b") 0 = Some (tag "h2:9093") /\
+            find_broker s (tag "a") 0 = None                      (* forgotten by the reset *)
+  | _ => False
+  end.
+Proof. vm_compute. repeat split; reflexivity. Qed.
 
 (* ---- routing -------------------------------------------------------------------------------------- *)
 Lemma assoc_bpair : forall bs k b, NoDup (map b_node bs) -> nth_error bs k = Some b ->
@@ -816,6 +1039,11 @@ Qed.
 
 Corollary C06_routing' : forall s t p, inv s -> find_broker s t p = route (abs s) t p.
 Proof. exact C06_routing. Qed.
+Example ex_routing :
+  route (abs ex_s2) (tag "a") 1 = Some (tag "h2:9093") /\ find_broker ex_s2 (tag "a") 1 = Some (tag "h2:9093") /\
+  route (abs ex_s5) (tag "c") 0 = None /\ find_broker ex_s5 (tag "c") 0 = None /\
+  route (abs ex_s5) (tag "c") 1 = Some (tag "h1:9092").
+Proof. vm_compute. repeat split; reflexivity. Qed.
 
 (* ---- stable indices ------------------------------------------------------------------------------- *)
 Lemma topics_fun_other idx t : forall tms tps,
@@ -835,6 +1063,8 @@ Proof.
   intros s md s' t Hupd Hn. rewrite update_metadata_eq in Hupd. injection Hupd as <-.
   unfold partitions_for, upd_fun. cbn [topic_partitions]. apply topics_fun_other. exact Hn.
 Qed.
+Example ex_stable_refs : partitions_for ex_s2 (tag "a") = Some [0; 1] /\ partitions_for ex_s1 (tag "a") = Some [0; 1].
+Proof. vm_compute. auto. Qed.
 
 Theorem C06_stable_nodes : forall s md s',
   inv s -> update_metadata s md = Ok s' -> exists sfx, map b_node (brokers s') = map b_node (brokers s) ++ sfx.
@@ -861,6 +1091,11 @@ Proof.
   rewrite Forall_forall in Hok. apply Hok. apply nth_z_some in E1. destruct E1 as [_ E1].
   eapply nth_error_In; eauto.
 Qed.
+Example ex_stable_indices :
+  ~ In (tag "a") (map tm_topic (md_topics ex_md2)) /\
+  leader_of (abs ex_s1) (tag "a") 1 = Some 2 /\ leader_of (abs ex_s2) (tag "a") 1 = Some 2 /\
+  find_broker ex_s1 (tag "a") 1 = Some (tag "h2:9092") /\ find_broker ex_s2 (tag "a") 1 = Some (tag "h2:9093").
+Proof. split; [vm_compute; intros [H|[]]; discriminate H|]. vm_compute. repeat split; reflexivity. Qed.
 
 (* ================================================================================================ *)
 (* 8. Requests are addressed to the leader; leaderless partitions are never sent to                 *)
@@ -879,9 +1114,15 @@ Proof.
   intros s t p host Hinv H. rewrite C06_routing' in H by exact Hinv. rewrite route_leader in H.
   destruct (leader_of (abs s) t p) as [l|]; [eauto | discriminate].
 Qed.
+Example ex_addressed_has_leader :
+  find_broker ex_s2 (tag "b") 0 = Some (tag "h2:9093") /\ leader_of (abs ex_s2) (tag "b") 0 = Some 2 /\
+  assoc_z 2 (a_host (abs ex_s2)) = Some (tag "h2:9093").
+Proof. vm_compute. repeat split; reflexivity. Qed.
 
 Theorem C06_no_leader_no_address : forall s t p, inv s -> leader_of (abs s) t p = None -> find_broker s t p = None.
 Proof. intros s t p Hinv H. rewrite C06_routing' by exact Hinv. rewrite route_leader, H. reflexivity. Qed.
+Example ex_no_leader_no_address : leader_of (abs ex_s5) (tag "c") 0 = None /\ find_broker ex_s5 (tag "c") 0 = None.
+Proof. vm_compute. auto. Qed.
 
 (* (host, topic, partition) occurs in a per-host grouped request map *)
 Definition Kin {P} (tps : list (bytes * list (Z * P))) (t : bytes) (q : Z) : Prop :=
@@ -1052,6 +1293,12 @@ Proof.
   intros host tps Hin t ps Ht p x Hp. apply (Hall [] (all_to_leader_nil s)).
   exists tps. split; [exact Hin|]. exists ps, x. auto.
 Qed.
+Example ex_offset_reqs :
+  offset_reqs ex_s2 [tag "a"; tag "b"; tag "zz"] (-1)
+  = [(tag "h1:9092", [(tag "a", [(0, -1)])]); (tag "h2:9093", [(tag "a", [(1, -1)]); (tag "b", [(0, -1)])])] /\
+  (* c/0 has no leader: it is silently left out *)
+  offset_reqs ex_s5 [tag "c"] (-1) = [(tag "h1:9092", [(tag "c", [(1, -1)])])].
+Proof. vm_compute. auto. Qed.
 
 Theorem C06_fetch_addressed : forall c input host tps,
   In (host, tps) (fetch_reqs c input) ->
@@ -1073,6 +1320,12 @@ Proof.
   intros host tps Hin t ps Ht p x Hp. apply (Hall [] (all_to_leader_nil (cs c))).
   exists tps. split; [exact Hin|]. exists ps, x. auto.
 Qed.
+Example ex_fetch_reqs :
+  fetch_reqs {| cfg := default_config []; cs := ex_s5; conns := [] |}
+             [ {| fq_topic := tag "c"; fq_partition := 0; fq_offset := 5; fq_max_bytes := 100 |};
+               {| fq_topic := tag "c"; fq_partition := 1; fq_offset := 6; fq_max_bytes := 100 |} ]
+  = [(tag "h1:9092", [(tag "c", [(1, (6, 100))])])].
+Proof. vm_compute. reflexivity. Qed.
 
 Lemma produce_reqs_all s : forall msgs acc reqs,
   all_to_leader s acc -> produce_reqs s msgs acc = Some reqs -> all_to_leader s reqs.
@@ -1092,6 +1345,10 @@ Proof.
   apply (produce_reqs_all s msgs [] reqs (all_to_leader_nil s) H).
   exists tps. split; [exact Hin|]. exists ps, x. auto.
 Qed.
+Example ex_produce_reqs :
+  produce_reqs ex_s5 [ {| pq_topic := tag "c"; pq_partition := 1; pq_key := None; pq_value := Some (tag "v") |} ] []
+  = Some [(tag "h1:9092", [(tag "c", [(1, [(None, Some (tag "v"))])])])].
+Proof. vm_compute. reflexivity. Qed.
 
 (* a produce batch containing a message for a partition without address is refused as a whole ... *)
 Theorem C06_produce_unavailable : forall s msgs acc m,
@@ -1101,6 +1358,35 @@ Proof.
   destruct (find_broker s (pq_topic m0) (pq_partition m0)) as [host|] eqn:E; [| reflexivity].
   destruct Hin as [->|Hin]; [congruence|]. eapply IH; eauto.
 Qed.
+Example ex_produce_unavailable :
+  produce_reqs ex_s5 [ {| pq_topic := tag "c"; pq_partition := 1; pq_key := None; pq_value := Some (tag "v") |};
+                       {| pq_topic := tag "c"; pq_partition := 0; pq_key := None; pq_value := Some (tag "w") |} ] []
+  = None.
+Proof. vm_compute. reflexivity. Qed.
+
+(* the produce call itself: UnknownTopicOrPartition, and nothing is sent *)
+Theorem C06_produce_reports_unavailable : forall acks timeout msgs m st,
+  In m msgs -> find_broker (cs (cl st)) (pq_topic m) (pq_partition m) = None ->
+  fst (internal_produce_messages acks timeout msgs st) = Err (EKafka KC_UnknownTopicOrPartition) /\
+  trace (snd (internal_produce_messages acks timeout msgs st)) = trace st.
+Proof.
+  intros acks timeout msgs m st Hin Hm.
+  set (s1 := snd (next_corr st)).
+  assert (H1 : next_corr st = (Ok (fst (next_correlation_id (cs (cl st)))), s1)) by reflexivity.
+  assert (H2 : produce_reqs (cs (cl s1)) msgs [] = None)
+    by (apply (C06_produce_unavailable _ msgs [] m Hin); exact Hm).
+  assert (H3 : internal_produce_messages acks timeout msgs st = (Err (EKafka KC_UnknownTopicOrPartition), s1)).
+  { unfold internal_produce_messages. unfold mbind at 1. rewrite H1. unfold mbind at 1, get_client at 1.
+    rewrite H2. reflexivity. }
+  rewrite H3. split; reflexivity.
+Qed.
+Example ex_produce_reports_unavailable :
+  let st0 := {| script := []; trace := []; anyq := []; hostq := []; fetchq := []; entryq := [];
+                cl := {| cfg := default_config []; cs := ex_s5; conns := [] |}; env := ex_env |} in
+  let '(r, s) := internal_produce_messages 1 1000
+                   [ {| pq_topic := tag "c"; pq_partition := 0; pq_key := None; pq_value := Some (tag "w") |} ] st0 in
+  r = Err (EKafka KC_UnknownTopicOrPartition) /\ trace s = [].
+Proof. vm_compute. auto. Qed.
 
 (* ... whereas fetch silently drops such a partition from the request *)
 Theorem C06_fetch_skips : forall c pre q post,
@@ -1109,3 +1395,296 @@ Theorem C06_fetch_skips : forall c pre q post,
 Proof.
   intros c pre q post H. unfold fetch_reqs. rewrite !fold_left_app. cbn [fold_left]. rewrite H. reflexivity.
 Qed.
+Example ex_fetch_skips :
+  fetch_reqs {| cfg := default_config []; cs := ex_s5; conns := [] |}
+             [ {| fq_topic := tag "c"; fq_partition := 0; fq_offset := 5; fq_max_bytes := 100 |} ] = [].
+Proof. vm_compute. reflexivity. Qed.
+
+(* ================================================================================================ *)
+(* 9. Bootstrap: metadata is taken from the first host that can be reached                          *)
+(* ================================================================================================ *)
+
+Lemma conn_fail h st rest :
+  in_pool h (conns (cl st)) = false -> script st = OConn false :: rest ->
+  mtry (get_conn h) st = (Ok (Err (EIo IoConnRefused)), st_with st rest (EConnect h :: trace st)).
+Proof.
+  intros Hp Hs. unfold mtry, get_conn, mbind, get_client, new_conn, io. rewrite Hp.
+  unfold mbind, io. rewrite Hs. reflexivity.
+Qed.
+
+Lemma hosts_step corr topics h r st rest :
+  in_pool h (conns (cl st)) = false -> script st = OConn false :: rest ->
+  fetch_metadata_hosts corr topics (h :: r) st
+  = fetch_metadata_hosts corr topics r (st_with st rest (EConnect h :: trace st)).
+Proof.
+  intros Hp Hs. cbn [fetch_metadata_hosts]. unfold mbind at 1. unfold get_client at 1.
+  unfold mbind at 1. rewrite (conn_fail h st rest Hp Hs). reflexivity.
+Qed.
+
+Lemma st_with_id st : st_with st (script st) (trace st) = st.
+Proof. destruct st; reflexivity. Qed.
+
+Theorem C06_bootstrap_none : forall corr topics hs st rest,
+  (forall h, In h hs -> in_pool h (conns (cl st)) = false) ->
+  script st = map (fun _ => OConn false) hs ++ rest ->
+  fetch_metadata_hosts corr topics hs st
+  = (Err ENoHostReachable, st_with st rest (rev (map EConnect hs) ++ trace st)).
+Proof.
+  induction hs as [|h hs IH]; intros st rest Hp Hs.
+  - cbn [map app rev] in *. cbn [fetch_metadata_hosts]. unfold fail. rewrite <- Hs, st_with_id. reflexivity.
+  - cbn [map app] in Hs. rewrite (hosts_step corr topics h hs st _ (Hp h (or_introl eq_refl)) Hs).
+    rewrite (IH _ rest).
+    + cbn [map rev]. rewrite <- app_assoc. reflexivity.
+    + intros h' Hin. apply Hp. right; exact Hin.
+    + reflexivity.
+Qed.
+Example ex_bootstrap_none :
+  fetch_metadata_hosts 1 [] ex_hs (ex_st ex_hs [OConn false; OConn false; OConn false; OConn true])
+  = (Err ENoHostReachable,
+     st_with (ex_st ex_hs []) [OConn true] [EConnect (tag "c:3"); EConnect (tag "b:2"); EConnect (tag "a:1")]).
+Proof. vm_compute. reflexivity. Qed.
+Example ex_bootstrap_none_by_thm :
+  fetch_metadata_hosts 1 [] ex_hs (ex_st ex_hs [OConn false; OConn false; OConn false; OConn true])
+  = (Err ENoHostReachable,
+     st_with (ex_st ex_hs []) [OConn true] [EConnect (tag "c:3"); EConnect (tag "b:2"); EConnect (tag "a:1")]).
+Proof.
+  rewrite (C06_bootstrap_none 1 [] ex_hs (ex_st ex_hs [OConn false; OConn false; OConn false; OConn true])
+                              [OConn true]); [reflexivity | intros h _; reflexivity | reflexivity].
+Qed.
+
+Definition connected (st : st) (h : bytes) (sc : list ev_out) (tr : list ev_op) : Net.st :=
+  {| script := sc; trace := tr; anyq := anyq st; hostq := hostq st; fetchq := fetchq st; entryq := entryq st;
+     cl := {| cfg := cfg (cl st); cs := cs (cl st); conns := conns (cl st) ++ [h] |}; env := env st |}.
+
+Lemma conn_ok h st rest :
+  in_pool h (conns (cl st)) = false -> script st = OConn true :: rest ->
+  mtry (get_conn h) st = (Ok (Ok tt), connected st h rest (EConnect h :: trace st)).
+Proof.
+  intros Hp Hs. unfold mtry, get_conn, mbind, get_client, new_conn, io. rewrite Hp.
+  unfold mbind, io. rewrite Hs. reflexivity.
+Qed.
+
+Lemma send_one h buf st rest :
+  buf <> [] -> script st = OWrote (ulen buf) :: rest ->
+  send h buf st = (Ok (ulen buf), st_with st rest (EWrite h buf :: trace st)).
+Proof.
+  intros Hne Hs. unfold send, mbind, with_fuel. rewrite Hs. cbn [length].
+  destruct buf as [|b buf]; [contradiction|]. cbn [write_all]. unfold mbind, io. rewrite Hs.
+  replace (ulen (b :: buf) <=? 0) with false by (unfold ulen; cbn [length]; lia).
+  replace (skipn (Z.to_nat (ulen (b :: buf))) (b :: buf)) with (@nil byte)
+    by (unfold ulen; rewrite Nat2Z.id, skipn_all; reflexivity).
+  destruct (length rest); reflexivity.
+Qed.
+
+Lemma frame_nonempty p : frame p <> [].
+Proof. unfold frame, enc_i32. cbn [be_enc app]. discriminate. Qed.
+
+Lemma hosts_first corr topics h post st payload script2 :
+  in_pool h (conns (cl st)) = false ->
+  enc_metadata_req corr (client_id (cfg (cl st))) topics = Ok payload ->
+  script st = OConn true :: OWrote (ulen (frame payload)) :: script2 ->
+  fetch_metadata_hosts corr topics (h :: post) st
+  = get_response dec_metadata_resp h
+      (connected st h script2 (EWrite h (frame payload) :: EConnect h :: trace st)).
+Proof.
+  intros Hp Henc Hs. cbn [fetch_metadata_hosts]. unfold mbind at 1. unfold get_client at 1.
+  unfold mbind at 1. rewrite (conn_ok h st _ Hp Hs).
+  unfold mbind at 1. rewrite Henc.
+  assert (Hsend : mtry (send_request h (Ok payload)) (connected st h (OWrote (ulen (frame payload)) :: script2) (EConnect h :: trace st))
+          = (Ok (Ok (ulen (frame payload))), connected st h script2 (EWrite h (frame payload) :: EConnect h :: trace st))).
+  { set (st1 := connected st h (OWrote (ulen (frame payload)) :: script2) (EConnect h :: trace st)).
+    unfold mtry, send_request, mbind at 1, lift.
+    rewrite (send_one h (frame payload) st1 script2 (frame_nonempty payload) eq_refl). reflexivity. }
+  rewrite Hsend. reflexivity.
+Qed.
+
+Theorem C06_bootstrap_first : forall corr topics pre h post st payload script2,
+  (forall h', In h' pre -> in_pool h' (conns (cl st)) = false) ->
+  in_pool h (conns (cl st)) = false ->
+  enc_metadata_req corr (client_id (cfg (cl st))) topics = Ok payload ->
+  script st = map (fun _ => OConn false) pre ++ OConn true :: OWrote (ulen (frame payload)) :: script2 ->
+  fetch_metadata_hosts corr topics (pre ++ h :: post) st
+  = get_response dec_metadata_resp h
+      (connected st h script2 (EWrite h (frame payload) :: EConnect h :: rev (map EConnect pre) ++ trace st)).
+Proof.
+  induction pre as [|h0 pre IH]; intros h post st payload script2 Hpre Hp Henc Hs.
+  - cbn [map app rev] in *. apply hosts_first; auto.
+  - cbn [map app] in Hs. cbn [app].
+    rewrite (hosts_step corr topics h0 _ st _ (Hpre h0 (or_introl eq_refl)) Hs).
+    rewrite (IH h post _ payload script2).
+    + cbn [map rev]. rewrite <- app_assoc. reflexivity.
+    + intros h' Hin. apply Hpre. right; exact Hin.
+    + exact Hp.
+    + exact Henc.
+    + reflexivity.
+Qed.
+(* host a refuses, host b connects, takes the 18 byte request and answers an empty metadata response;
+   host c is never contacted *)
+Example ex_bootstrap_first :
+  let '(r, s) := fetch_metadata_hosts 1 [] ex_hs
+                   (ex_st ex_hs [OConn false; OConn true; OWrote 18; OData (enc_i32 12);
+                                 OData (enc_i32 1 ++ enc_i32 0 ++ enc_i32 0)]) in
+  r = Ok {| md_corr := 1; md_brokers := []; md_topics := [] |} /\
+  rev (trace s) = [EConnect (tag "a:1"); EConnect (tag "b:2");
+                   EWrite (tag "b:2") (frame (enc_i16 3 ++ enc_i16 0 ++ enc_i32 1 ++ enc_i16 0 ++ enc_i32 0));
+                   ERead (tag "b:2") 4; ERead (tag "b:2") 12] /\
+  conns (cl s) = [tag "b:2"].
+Proof. vm_compute. repeat split; reflexivity. Qed.
+Example ex_bootstrap_first_hyps :
+  enc_metadata_req 1 (client_id (cfg (cl (ex_st ex_hs [])))) [] = Ok (enc_i16 3 ++ enc_i16 0 ++ enc_i32 1 ++ enc_i16 0 ++ enc_i32 0) /\
+  ulen (frame (enc_i16 3 ++ enc_i16 0 ++ enc_i32 1 ++ enc_i16 0 ++ enc_i32 0)) = 18.
+Proof. vm_compute. auto. Qed.
+
+(* get_response only reads from h *)
+Definition only_reads (h : bytes) (s s' : st) : Prop :=
+  exists evs, trace s' = evs ++ trace s /\ Forall (fun e => exists n, e = ERead h n) evs /\ cl s' = cl s.
+Definition reads_only {A} (h : bytes) (m : M A) : Prop := forall s r s', m s = (r, s') -> only_reads h s s'.
+
+Lemma only_reads_refl h s : only_reads h s s.
+Proof. exists []. repeat split; auto. Qed.
+
+Lemma only_reads_trans h s1 s2 s3 : only_reads h s1 s2 -> only_reads h s2 s3 -> only_reads h s1 s3.
+Proof.
+  intros (e1 & T1 & F1 & C1) (e2 & T2 & F2 & C2). exists (e2 ++ e1). repeat split.
+  - rewrite T2, T1, app_assoc. reflexivity.
+  - apply Forall_app; auto.
+  - congruence.
+Qed.
+
+Lemma ro_ret {A} h (a : A) : reads_only h (ret a).
+Proof. intros s r s' H. injection H as _ <-. apply only_reads_refl. Qed.
+Lemma ro_fail {A} h e : reads_only h (@fail A e).
+Proof. intros s r s' H. injection H as _ <-. apply only_reads_refl. Qed.
+Lemma ro_lift {A} h (x : res A) : reads_only h (lift x).
+Proof. intros s r s' H. injection H as _ <-. apply only_reads_refl. Qed.
+Lemma ro_bind {A B} h (m : M A) (f : A -> M B) :
+  reads_only h m -> (forall a, reads_only h (f a)) -> reads_only h (mbind m f).
+Proof.
+  intros Hm Hf s r s' H. unfold mbind in H. destruct (m s) as [[a|e|w] s1] eqn:E.
+  - eapply only_reads_trans; [eapply Hm; eauto | eapply Hf; eauto].
+  - injection H as _ <-. eapply Hm; eauto.
+  - injection H as _ <-. eapply Hm; eauto.
+Qed.
+Lemma ro_io h n : reads_only h (io (ERead h n)).
+Proof.
+  intros s r s' H. unfold io in H. exists [ERead h n].
+  destruct (script s); injection H as _ <-; cbn [trace cl st_with app]; repeat split; auto;
+    constructor; eauto.
+Qed.
+Lemma ro_with_fuel {A} h (f : nat -> M A) : (forall n, reads_only h (f n)) -> reads_only h (with_fuel f).
+Proof. intros Hf s r s' H. unfold with_fuel in H. eapply Hf; eauto. Qed.
+
+Lemma ro_read_exact h : forall fuel n acc, reads_only h (read_exact fuel h n acc).
+Proof.
+  induction fuel as [|f IH]; intros n acc; cbn [read_exact]; destruct (n <=? 0); try apply ro_ret; try apply ro_fail.
+  apply ro_bind; [apply ro_io|]. intros [ | | | | [|b bs] | | | ]; try apply ro_fail; apply IH.
+Qed.
+
+Lemma ro_read_chunks h : forall fuel remaining acc, reads_only h (read_chunks fuel h remaining acc).
+Proof.
+  induction fuel as [|f IH]; intros n acc; cbn [read_chunks]; destruct (n <=? 0); try apply ro_ret; try apply ro_fail.
+  apply ro_bind; [apply ro_with_fuel; intros g; apply ro_read_exact|]. intros b. apply IH.
+Qed.
+
+Theorem C06_response_reads_only : forall A (d : dec A) h, reads_only h (get_response d h).
+Proof.
+  intros A d h. unfold get_response, get_response_bytes, get_response_size, read_exact_alloc.
+  apply ro_bind.
+  - apply ro_bind.
+    + apply ro_bind; [apply ro_with_fuel; intros g; apply ro_read_exact|].
+      intros b. destruct (be_dec_s b <? 0); [apply ro_fail | apply ro_ret].
+    + intros size. apply ro_with_fuel. intros g. apply ro_read_chunks.
+  - intros b. apply ro_bind; [apply ro_lift|]. intros [a r]. apply ro_ret.
+Qed.
+
+Corollary C06_bootstrap_first_trace : forall corr topics pre h post st payload script2 r st',
+  (forall h', In h' pre -> in_pool h' (conns (cl st)) = false) ->
+  in_pool h (conns (cl st)) = false ->
+  enc_metadata_req corr (client_id (cfg (cl st))) topics = Ok payload ->
+  script st = map (fun _ => OConn false) pre ++ OConn true :: OWrote (ulen (frame payload)) :: script2 ->
+  fetch_metadata_hosts corr topics (pre ++ h :: post) st = (r, st') ->
+  exists reads, Forall (fun e => exists n, e = ERead h n) reads /\
+    trace st' = reads ++ EWrite h (frame payload) :: EConnect h :: rev (map EConnect pre) ++ trace st.
+Proof.
+  intros corr topics pre h post st payload script2 r st' Hpre Hp Henc Hs H.
+  rewrite (C06_bootstrap_first corr topics pre h post st payload script2 Hpre Hp Henc Hs) in H.
+  apply C06_response_reads_only in H. destruct H as (evs & T & F & _). exists evs. split; [exact F | exact T].
+Qed.
+
+(* a request that cannot be ENCODED is treated like a host that cannot be reached: the client connects to
+   every bootstrap host in turn, writes nothing, and reports NoHostReachable *)
+Lemma hosts_step_enc corr topics h r st rest e :
+  in_pool h (conns (cl st)) = false -> script st = OConn true :: rest ->
+  enc_metadata_req corr (client_id (cfg (cl st))) topics = Err e ->
+  fetch_metadata_hosts corr topics (h :: r) st
+  = fetch_metadata_hosts corr topics r (connected st h rest (EConnect h :: trace st)).
+Proof.
+  intros Hp Hs Henc. cbn [fetch_metadata_hosts]. unfold mbind at 1. unfold get_client at 1.
+  unfold mbind at 1. rewrite (conn_ok h st _ Hp Hs). unfold mbind at 1. rewrite Henc. reflexivity.
+Qed.
+
+Theorem C06_bootstrap_encode_error : forall corr topics hs st e rest,
+  NoDup hs -> (forall h, In h hs -> in_pool h (conns (cl st)) = false) ->
+  enc_metadata_req corr (client_id (cfg (cl st))) topics = Err e ->
+  script st = map (fun _ => OConn true) hs ++ rest ->
+  fst (fetch_metadata_hosts corr topics hs st) = Err ENoHostReachable /\
+  trace (snd (fetch_metadata_hosts corr topics hs st)) = rev (map EConnect hs) ++ trace st.
+Proof.
+  induction hs as [|h hs IH]; intros st e rest Hnd Hp Henc Hs.
+  - cbn [fetch_metadata_hosts fail fst snd map rev app]. auto.
+  - cbn [map app] in Hs. inversion Hnd as [|x xs Hni Hnd']; subst.
+    rewrite (hosts_step_enc corr topics h hs st _ e (Hp h (or_introl eq_refl)) Hs Henc).
+    destruct (IH (connected st h (map (fun _ => OConn true) hs ++ rest) (EConnect h :: trace st)) e rest)
+      as [R1 R2]; auto.
+    + intros h' Hin. cbn [connected cl conns]. unfold in_pool. rewrite existsb_app. cbn [existsb].
+      fold (in_pool h' (conns (cl st))). rewrite (Hp h' (or_intror Hin)). cbn [orb].
+      destruct (bytes_eqb h' h) eqn:E; [| reflexivity]. apply bytes_eqb_eq in E. subst. contradiction.
+    + split; [exact R1|]. rewrite R2. cbn [connected trace map rev]. rewrite <- app_assoc. reflexivity.
+Qed.
+(* a client id of 32768 bytes cannot be encoded (its length does not fit an i16) *)
+Example ex_bootstrap_encode_error :
+  let st0 := ex_st ex_hs [OConn true; OConn true; OConn true] in
+  let st1 := {| script := script st0; trace := []; anyq := []; hostq := []; fetchq := []; entryq := [];
+                cl := {| cfg := {| client_id := repeat x00 (Z.to_nat 32768); hosts := ex_hs;
+                                   compression := 0; fetch_max_wait_time := 0; fetch_min_bytes := 0;
+                                   fetch_max_bytes_per_partition := 0; fetch_crc_validation := false;
+                                   offset_storage := -1; retry_backoff_time := (0, 0); retry_max_attempts := 0;
+                                   idle_timeout := (1, 0) |};
+                         cs := cstate_new; conns := [] |};
+                env := ex_env |} in
+  let '(r, s) := fetch_metadata_hosts 1 [] ex_hs st1 in
+  r = Err ENoHostReachable /\
+  rev (trace s) = [EConnect (tag "a:1"); EConnect (tag "b:2"); EConnect (tag "c:3")] /\
+  conns (cl s) = ex_hs.
+Proof. vm_compute. repeat split; reflexivity. Qed.
+
+(* ================================================================================================ *)
+Print Assumptions C06_update_total.
+Print Assumptions C06_inv_init.
+Print Assumptions C06_inv_step.
+Print Assumptions C06_inv_clear.
+Print Assumptions C06_refines_code.
+Print Assumptions merge_code_wf.
+Print Assumptions C06_refines.
+Print Assumptions C06_merge_host_lookup.
+Print Assumptions C06_merge_topic_lookup.
+Print Assumptions C06_refines_refuted_without_wf.
+Print Assumptions C06_clear.
+Print Assumptions C06_history.
+Print Assumptions C06_routing.
+Print Assumptions C06_stable_refs.
+Print Assumptions C06_stable_nodes.
+Print Assumptions C06_stable_indices.
+Print Assumptions C06_addressed_has_leader.
+Print Assumptions C06_no_leader_no_address.
+Print Assumptions C06_leaderless_never_addressed.
+Print Assumptions C06_fetch_addressed.
+Print Assumptions C06_produce_addressed.
+Print Assumptions C06_produce_unavailable.
+Print Assumptions C06_produce_reports_unavailable.
+Print Assumptions C06_fetch_skips.
+Print Assumptions C06_bootstrap_none.
+Print Assumptions C06_bootstrap_first.
+Print Assumptions C06_response_reads_only.
+Print Assumptions C06_bootstrap_first_trace.
+Print Assumptions C06_bootstrap_encode_error.
